@@ -270,6 +270,9 @@ package fs
 //@   at call os.Symlink: symlink_target_emptied_first: cnt(TargetEmptied) > old(cnt(TargetEmptied)) && arg(TargetEmptied, 0) == target
 //@   at call copyDevice: special_target_emptied_first: cnt(TargetEmptied) > old(cnt(TargetEmptied)) && arg(TargetEmptied, 0) == target
 //@   at call copyFile: regular: include && fi.Mode() & os.ModeType == 0 && arg0 == src && arg1 == target
+// the remembered first copy of an inode is another entry: the target itself was just emptied, a
+// link source equal to it is gone (F33: two wildcard matches of one inode copied to one path)
+//@   at call os.Link: link_source_is_another_entry: arg0 != target
 //@   at call os.Link: hardlink: include && arg1 == target
 //@   at call os.Symlink: symlink_copied_not_followed: include && fi.Mode() & os.ModeSymlink == os.ModeSymlink && arg1 == target && cnt(Readlink) == old(cnt(Readlink)) + 1 && arg(Readlink, 0) == src
 //@   at call copyDevice: special: include && arg0 == target
@@ -302,8 +305,9 @@ package fs
 // copy.go: destination selection
 // ---------------------------------------------------------------------------
 
-// the rows the statement fixes: a directory lands inside an existing destination
-// under its own name unless directory-contents mode is on; a non-directory lands
+// the rows the statement fixes: a directory lands inside an existing destination DIRECTORY
+// under its own name unless directory-contents mode is on (an existing non-directory is an
+// obstacle for the copy step to report or, with always-replace, to replace - found and repaired, F26); a non-directory lands
 // inside an existing destination directory; otherwise the destination path is
 // used as given. The source is inspected with Lstat, the (root-resolved)
 // destination with Stat.
@@ -317,7 +321,7 @@ package fs
 // the destination is inspected afresh by every call (an earlier source of the same copy may have
 // created it): when the parent directories are made, exactly one Stat has happened here, on destPath
 //@   at call MkdirAll: dest_inspected_in_this_call: cnt(Stat) == old(cnt(Stat)) + 1 && arg(Stat, 0) == destPath
-//@   at call MkdirAll: rows: arg0 == ite(copyDirContents && fiSrc.IsDir() && fiDest == nil, ite((!copyDirContents && fiSrc.IsDir() && fiDest != nil) || (!fiSrc.IsDir() && fiDest != nil && fiDest.IsDir()), filepath.Join(destPath, filepath.Base(filepath.Join("/", src))), destPath), filepath.Dir(ite((!copyDirContents && fiSrc.IsDir() && fiDest != nil) || (!fiSrc.IsDir() && fiDest != nil && fiDest.IsDir()), filepath.Join(destPath, filepath.Base(filepath.Join("/", src))), destPath)))
+//@   at call MkdirAll: rows: arg0 == ite(copyDirContents && fiSrc.IsDir() && fiDest == nil, ite((!copyDirContents && fiSrc.IsDir() && fiDest != nil && fiDest.IsDir()) || (!fiSrc.IsDir() && fiDest != nil && fiDest.IsDir()), filepath.Join(destPath, filepath.Base(filepath.Join("/", src))), destPath), filepath.Dir(ite((!copyDirContents && fiSrc.IsDir() && fiDest != nil && fiDest.IsDir()) || (!fiSrc.IsDir() && fiDest != nil && fiDest.IsDir()), filepath.Join(destPath, filepath.Base(filepath.Join("/", src))), destPath)))
 
 // src and dst arguments are resolved as if their root were "/"
 //@ func rootPath
